@@ -340,7 +340,7 @@ def run(ctx):
             gen_states += gr.distinct
             sizes["%s<=%d" % (a, k)] = [len(head["alphabet"]), len(cs)]
             heads[a] = head
-            for s, net, peak in cs:
+            for s, net, peak in sorted(cs):          # TLC's BFS order depends on thread timing; ours must not
                 t = tuple(s)
                 if t not in seen:
                     seen.add(t)
@@ -349,7 +349,7 @@ def run(ctx):
         for f in sfuts:
             _, _, cs = f.result()
             nsim += len(cs)
-            cases += [(s, net, peak, "sim") for s, net, peak in cs]
+            cases += [(s, net, peak, "sim") for s, net, peak in sorted(cs)]
         sizes["simulated"] = nsim
     for s, net, peak, g in cases:
         if peak > MAXNEST:
